@@ -160,9 +160,18 @@ def check(tier):
     isop = [C.hook_batch([{"op": "sequence", "texts": [], "patterns": [p_]}])[0] for p_ in PATTERNS]
     base = {t: r["results"][0] for t, r in zip(specs, iso) if r.get("outcome") == "ok"}
     basep = {p_: r["pattern_results"][0] for p_, r in zip(PATTERNS, isop) if r.get("outcome") == "ok"}
-    orders = list(itertools.permutations(range(len(specs))))
-    rng.shuffle(orders)
-    orders = orders[:30 if tier == "quick" else 400]
+    want = 30 if tier == "quick" else 400
+    if len(specs) <= 6:
+        orders = list(itertools.permutations(range(len(specs))))
+        rng.shuffle(orders)
+        orders = orders[:want]
+    else:                                    # never materialise n! orders
+        orders, seen_o = [], set()
+        while len(orders) < want:
+            o = tuple(rng.sample(range(len(specs)), len(specs)))
+            if o not in seen_o:
+                seen_o.add(o)
+                orders.append(o)
     sreqs = []
     for o in orders:
         po = list(PATTERNS)
